@@ -121,7 +121,10 @@ pub fn guarded<F: FnOnce() -> String + std::panic::UnwindSafe>(f: F) -> String {
         Ok(s) => s,
         Err(_) => {
             let loc = LAST_PANIC.with(|l| l.borrow_mut().take()).unwrap_or_else(|| "?".into());
-            format!("panic:{}", loc)
+            match loc.strip_prefix("\u{1}harness:") {
+                Some(l) => format!("harness-panic:{}", l),
+                None => format!("panic:{}", loc),
+            }
         }
     }
 }
@@ -138,6 +141,11 @@ pub fn install_panic_hook() {
                 let f = l.file();
                 // path relative to the repository / registry root
                 let root = std::env::var("VERIF_REPO").unwrap_or_else(|_| "/repo".into());
+                if !f.starts_with('/') {
+                    // a relative path is a file of this crate: the harness itself panicked (it could
+                    // not observe the answer) — reported apart from a panic of the library
+                    return format!("\u{1}harness:{}:{}", f, l.line());
+                }
                 let f = f.strip_prefix(root.as_str()).map(|f| f.trim_start_matches('/')).unwrap_or(f);
                 format!("{}:{}", f, l.line())
             })
